@@ -4,9 +4,8 @@ package code93
 // all four (includeChecksum, fullASCII) configurations) with the Code 93 clause of C10 (alphabet).
 // Injected with go test -overlay; never written into /repo.
 //
-// SKIPPED, recorded known finding: with includeChecksum=false the library still emits check character C.
-// In that configuration the symbol is accepted if it carries the text alone or the text followed by ONE
-// check character that is the correct C.
+// With includeChecksum=false the symbol must carry the text alone (fixed defect F12: check character C
+// used to be emitted although none was requested).
 
 import (
 	"fmt"
@@ -135,18 +134,11 @@ func v93Check(content string) (fails []hlib.Failure) {
 				fail("text", msg)
 			}
 		} else {
-			// known finding: check character C is emitted although none was requested
+			// no check characters requested: the symbol carries the text alone
 			ok, msg := matches(values)
 			data = values
-			if !ok && len(values) >= 1 {
-				d := values[:len(values)-1]
-				c, _ := onedspec.C93Checks(d)
-				if ok2, _ := matches(d); ok2 && values[len(values)-1] == c {
-					ok, data = true, d
-				}
-			}
 			if !ok {
-				fail("text", msg+" (also not text + correct check character C)")
+				fail("text", msg+" (no check characters were requested)")
 			}
 		}
 		var rs []rune
